@@ -162,8 +162,8 @@ extern "C" { extern int g_unsimp_threw; }
 /* vectors: only dimension and identity matter here */
 struct VecStub
 {
-   int dimen; int redim_calls; int redim_zero;
-   void reDim(int newdim, const bool setZero = true) { dimen = newdim; redim_calls++; redim_zero = setZero; }
+   int dimen;
+   void reDim(int newdim, const bool setZero = true) { dimen = newdim; }
    int dim() const { return dimen; }
 };
 struct HostS;
@@ -190,7 +190,7 @@ struct SolverStubS : LPStub
    int nRows() const { return nr; }
    int nCols() const { return nc; }
    bool isScaled() const { return scaled != 0; }
-   const BasisStub& basis() const { return bas; }
+   const BasisStub& basis() const { return *(BasisStub*)&bas; }   /* front end drops the const otherwise (README pitfall 3) */
    R shift() const { return sh; }
    SPxSolverBase<R>::Status getPrimalray(VecStub& v) const { host->ev(K_GETRAY, (const void*)&v == ray_expected, v.dimen); return (SPxSolverBase<R>::Status)0; }
    SPxSolverBase<R>::Status getDualfarkas(VecStub& v) const { host->ev(K_GETFARKAS, (const void*)&v == farkas_expected, v.dimen); return (SPxSolverBase<R>::Status)0; }
@@ -221,10 +221,10 @@ struct SimplifierStub
       host->ev(K_UNSIMPLIFY, ok, isOptimal);
       g_unsimp_threw = nondet_bool();
    }
-   const SimpVec& unsimplifiedPrimal() { return up; }
-   const SimpVec& unsimplifiedSlacks() { return us; }
-   const SimpVec& unsimplifiedDual() { return ud; }
-   const SimpVec& unsimplifiedRedCost() { return ur; }
+   const SimpVec& unsimplifiedPrimal() { return *(SimpVec*)&up; }
+   const SimpVec& unsimplifiedSlacks() { return *(SimpVec*)&us; }
+   const SimpVec& unsimplifiedDual() { return *(SimpVec*)&ud; }
+   const SimpVec& unsimplifiedRedCost() { return *(SimpVec*)&ur; }
    void getBasis(int* rows, int* cols, const int rowsSize = -1, const int colsSize = -1) const
    { host->ev(K_SIMPBASIS, (const void*)rows == solver->rows_expected && (const void*)cols == solver->cols_expected); }
 };
